@@ -23,6 +23,14 @@ F2  first-use orders between a class and the classes derived from it, for every 
     reject plus one validation probe per keyword; what a derived class must answer is computed by the
     reference evaluator (mc/ref/spec.py) on the metaschema *file* with the overridden keyword deleted /
     replaced by an unsatisfiable one (entries the model says are unaffected must equal the parent's).
+F3  metaschema ids that nearly collide: next to the draft classes two registered dialect classes; operations
+    create a registered class whose metaschema id is a near-collision of an existing id (+fragment, other
+    fragment, empty fragment, scheme / host case, empty query, query, path case, encoded characters, trailing
+    slash, other scheme) or use every class; all sequences (depth 2 quick / 3 thorough), each in its own
+    pristine child.  Battery per class: validator_for / validate() by its metaschema URI, new validators for
+    $ref to the own metaschema URI (with and without pointer), the metaschema served for the id,
+    check_schema.  A newcomer with a different id (reference normalisation: refnorm) disturbs nobody; one
+    with the same id leaves the owner of that id unjudged and everybody else undisturbed.
 """
 import gc
 import json
@@ -537,6 +545,7 @@ def ensure_baseline():
         _baseline[("F2", d)] = _child_value(in_child(_baseline_f2, d), "F2 baseline of draft %d" % d)
         for atoms in F1_ATOM_SEQS:
             model_meta(d, atoms, "f1", F1_META)
+    _baseline[("F3",)] = _child_value(in_child(_baseline_f3), "F3 baseline")
 
 
 class Escaped(Exception):
@@ -1088,6 +1097,240 @@ class Model2(object):
         return out
 
 
+# ================================================================ F3: metaschema ids that nearly collide
+# A class registered under a version name files its metaschema id in validators.meta_schemas.  A newcomer whose
+# id is a *different* URI than an existing class's id must not take over anything of that class, however close
+# the two URIs are: same URI plus a fragment, another fragment, a query, another path case, an encoded reserved
+# character, a trailing slash, another scheme.  Ids that are the same URI under the reference normalisation
+# below (scheme and host case, an empty fragment, an empty query, an encoded unreserved character) name the
+# same document; what happens to the class that used to own the id is then not demanded, only that nobody
+# else is disturbed.
+ACME = "http://example.com/dialects/acme"
+BOLT = "http://example.com/dialects/bolt#v1"
+F3_TARGETS = ["Draft4", "Draft7", "Acme", "Bolt"]
+F3_INSTANCES = [{}, {"type": 12}, {"title": 3}, {"title": "t"}, 12]
+UNRESERVED = "ABCDEFGHIJKLMNOPQRSTUVWXYZabcdefghijklmnopqrstuvwxyz0123456789-._~"
+
+
+def _blocked(uri):
+    raise IOError("retrieval is blocked in this check: " + uri)
+
+
+BLOCK = {"http": _blocked, "https": _blocked, "file": _blocked}
+
+
+def refnorm(u):
+    """Reference normalisation (RFC 3986 6.2.2 plus the empty fragment / empty query the library has always
+    dropped): two ids with the same refnorm are the same id, all others are different ids."""
+    base, sep, frag = u.partition("#")
+    if base.endswith("?"):
+        base = base[:-1]
+    scheme, _, rest = base.partition("://")
+    host, slash, path = rest.partition("/")
+    out, i = [], 0
+    while i < len(path):
+        if path[i] == "%" and len(path[i + 1:i + 3]) == 2:
+            try:
+                c = chr(int(path[i + 1:i + 3], 16))
+            except ValueError:
+                c = None
+            if c is not None and c in UNRESERVED:
+                out.append(c)
+                i += 3
+                continue
+            out.append(path[i:i + 3].upper())
+            i += 3
+            continue
+        out.append(path[i])
+        i += 1
+    return scheme.lower() + "://" + host.lower() + slash + "".join(out) + ("#" + frag if frag else "")
+
+
+def _v_upper_host(U):
+    scheme, _, rest = U.partition("://")
+    host, slash, tail = rest.partition("/")
+    return scheme + "://" + host.upper() + slash + tail
+
+
+def _v_pct_reserved(U):
+    base, sep, frag = U.partition("#")
+    i = base.rindex("/")
+    return base[:i] + "%2F" + base[i + 1:] + sep + frag
+
+
+F3_VARIANTS = [
+    ("fragment", lambda U: U.partition("#")[0] + "#strict"),
+    ("pointer-fragment", lambda U: U.partition("#")[0] + "#/lenient"),
+    ("empty-fragment-toggled", lambda U: U[:-1] if U.endswith("#") else U.partition("#")[0] + "#"),
+    ("upper-scheme", lambda U: U[:4].upper() + U[4:]),
+    ("upper-host", _v_upper_host),
+    ("empty-query", lambda U: U.partition("#")[0] + "?" + U[len(U.partition("#")[0]):]),
+    ("query", lambda U: U.partition("#")[0] + "?v=2" + U[len(U.partition("#")[0]):]),
+    ("path-case", lambda U: U.partition("#")[0][:-1] + U.partition("#")[0][-1].upper() + U[len(U.partition("#")[0]):]),
+    ("encoded-reserved", _v_pct_reserved),
+    ("encoded-unreserved", lambda U: U.partition("#")[0][:-1] + "%%%02X" % ord(U.partition("#")[0][-1]) + U[len(U.partition("#")[0]):]),
+    ("trailing-slash", lambda U: U.partition("#")[0] + "/" + U[len(U.partition("#")[0]):]),
+    ("other-scheme", lambda U: "https" + U[4:]),
+]
+F3_OPS = [("create", t, v) for t in F3_TARGETS for v, fn in F3_VARIANTS] + [("use",)]
+REGISTRY_KEYS = ("for", "self", "pointer", "validate", "served")
+
+
+def probe3(cls, U):
+    """What new validators of the class, and look-ups by its metaschema URI, give right now."""
+    out = {}
+    try:
+        out["for"] = jsv.validator_for({"$schema": U}, default=None) is cls
+    except Exception as e:
+        out["for"] = _exc_name(e)
+    for key, schema, insts in (("self", {"$ref": U}, F3_INSTANCES),
+                               ("pointer", {"items": {"$ref": U.partition("#")[0] + "#/properties/title"}}, [["a", 1], [3]])):
+        col = []
+        try:
+            v = cls(schema, resolver=RefResolver.from_schema(schema, id_of=cls.ID_OF, handlers=BLOCK))
+        except Exception as e:
+            out[key] = "construct " + _exc_name(e)
+            continue
+        for x in insts:
+            try:
+                col.append(tuple(sorted(e.message for e in v.iter_errors(x))))
+            except Exception as e:
+                col.append(_exc_name(e))
+        out[key] = tuple(col)
+    col = []
+    for x in (1, "s"):
+        try:
+            jsonschema.validate(x, {"$schema": U, "type": "integer"})
+            col.append("valid")
+        except exceptions.ValidationError:
+            col.append("ValidationError")
+        except exceptions.SchemaError:
+            col.append("SchemaError")
+        except Exception as e:
+            col.append(_exc_name(e))
+    out["validate"] = tuple(col)
+    try:
+        url, doc = RefResolver("", {}, handlers=BLOCK).resolve(U)
+        out["served"] = doc == cls.META_SCHEMA
+    except Exception as e:
+        out["served"] = _exc_name(e)
+    out["meta"] = tuple(check_schema_verdict(cls, x) for x in F1_META)
+    return out
+
+
+def _dialect_meta(key, uri):
+    return {key: uri, "type": ["object", "boolean"] if key == "$id" else "object",
+            "properties": {"title": {"type": "string"}, "type": {"type": "string"}}}
+
+
+class World3(object):
+    def __init__(self, record=False):
+        acme = jsv.create(meta_schema=_dialect_meta("$id", ACME), validators=Draft7Validator.VALIDATORS,
+                          type_checker=Draft7Validator.TYPE_CHECKER, version="verif-acme")
+        bolt = jsv.create(meta_schema=_dialect_meta("$id", BOLT), validators=Draft7Validator.VALIDATORS,
+                          type_checker=Draft7Validator.TYPE_CHECKER, version="verif-bolt")
+        self.objs = []              # [name, class, metaschema id, expected vector, keys without a demand]
+        for name, cls in [("Draft%d" % d, CLS[d]) for d in DRAFTS] + [("Acme", acme), ("Bolt", bolt)]:
+            U = cls.ID_OF(cls.META_SCHEMA)
+            self.objs.append([name, cls, U, probe3(cls, U) if record else None, set()])
+        if not record:
+            for o, vec in zip(self.objs, _baseline[("F3",)]):
+                o[3] = vec
+        self.counter = 0
+
+    def get(self, name):
+        for o in self.objs:
+            if o[0] == name:
+                return o
+        raise KeyError(name)
+
+
+def _baseline_f3():
+    return [o[3] for o in World3(record=True).objs]
+
+
+class Model3(object):
+    family = "F3"
+
+    def new_world(self):
+        return World3()
+
+    def ops(self, hist):
+        return list(F3_OPS)
+
+    def outcome_class(self, op, obs):
+        return "F3:%s:%s" % (":".join(op[::2]), obs[0])
+
+    def canon(self, w):
+        return _digest(tuple((o[2], _digest(sorted(o[3].items())), tuple(sorted(o[4]))) for o in w.objs))
+
+    def apply(self, w, op):
+        try:
+            return self._apply(w, op)
+        except Exception as e:
+            return ("EXC", type(e).__name__, str(e)[:100])
+
+    def mismatch(self, o):
+        name, cls, U, exp, free = o
+        got = probe3(cls, U)
+        keys = [k for k in diff_keys(got, exp) if k not in free]
+        if keys:
+            return (name, U, keys, {k: got.get(k) for k in keys[:3]}, {k: exp.get(k) for k in keys[:3]})
+        return None
+
+    def _apply(self, w, op):
+        if op[0] == "use":
+            for o in w.objs:
+                bad = self.mismatch(o)
+                if bad:
+                    return ("use-mismatch",) + bad
+            return ("used", len(w.objs))
+        target = w.get(op[1])
+        new_id = dict(F3_VARIANTS)[op[2]](target[2])
+        w.counter += 1
+        tcls = target[1]
+        key = "id" if tcls.ID_OF({"id": "x"}) == "x" else "$id"
+        meta = {key: new_id, "type": "object", "required": ["title"], "properties": {"title": {"type": "string"}}}
+        new = jsv.create(meta_schema=meta, validators=tcls.VALIDATORS, type_checker=tcls.TYPE_CHECKER,
+                         id_of=tcls.ID_OF, version="verif-f3-%d" % w.counter)
+        same = []
+        for o in w.objs:
+            if refnorm(o[2]) == refnorm(new_id):       # the newcomer claims the id this object has: no demand
+                o[4].update(REGISTRY_KEYS)
+                same.append(o[0])
+            elif refnorm(o[2].partition("#")[0]) == refnorm(new_id):
+                # this object's id is <document>#<fragment> and the newcomer claims <document> itself: references
+                # are retrieved by document, so what `<document>#...` resolves to is now the newcomer's business
+                o[4].update(("self", "pointer", "served"))
+                same.append(o[0] + " (document)")
+        # the newcomer itself: recorded now, must stay (until somebody claims its id)
+        w.objs.append(["new%d-%s-%s" % (w.counter, op[1], op[2]), new, new_id, probe3(new, new_id), set()])
+        return ("created", w.objs[-1][0], new_id, same)
+
+    def check(self, w, op, obs):
+        if obs[0] == "EXC":
+            return ("F3|operation-raised|%s|%s" % (op[0], obs[1]), {"observed": obs})
+        bad = obs[1:] if obs[0] == "use-mismatch" else None
+        when = "differs-when-used"
+        if bad is None:
+            when = "changed"
+            for o in w.objs:
+                bad = self.mismatch(o)
+                if bad:
+                    break
+        if not bad:
+            return None
+        name, U, keys, got, exp = bad
+        who = "newcomer" if name.startswith("new") else ("draft-class" if name.startswith("Draft") else "dialect-class")
+        return ("F3|%s-%s|%s" % (who, when, ",".join(keys[:3])),
+                {"object": name, "metaschema_id": U, "after": list(op), "created": obs[2] if obs[0] == "created" else None,
+                 "differs_in": keys, "observed": got, "expected": exp})
+
+
+def f3_units():
+    return [("F3", i) for i in range(len(F3_OPS))]
+
+
 # ================================================================ exploration
 def run_history(model, hist):
     """Fresh world, the operations, the invariant after the last one."""
@@ -1158,6 +1401,10 @@ def depths(ctx):
     return (3, 2) if ctx.tier == "quick" else (4, 3)
 
 
+def f3_depth(ctx):
+    return 2 if ctx.tier == "quick" else 3
+
+
 def f1_units():
     units = [("F1", i, -1) for i, a in enumerate(OPS) if a in MODEL.ops(())]          # the histories of length 1
     units += [("F1", i, j) for i, a in enumerate(OPS) if a in MODEL.ops(())
@@ -1169,9 +1416,11 @@ def plan(ctx):
     G.snapshot()
     ensure_baseline()
     D1, D2 = depths(ctx)
-    f1, f2 = f1_units(), f2_units()
+    f1, f2, f3 = f1_units(), f2_units(), f3_units()
+    same = sum(1 for t in (Draft4Validator.META_SCHEMA["id"], Draft7Validator.META_SCHEMA["$id"], ACME, BOLT)
+               for v, fn in F3_VARIANTS if refnorm(fn(t)) == refnorm(t))
     return {
-        "units": f1 + f2,
+        "units": f1 + f2 + f3,
         "rule": ("histories start in forked children of a process that has never used the package (no check_schema "
                  "call, no validation, no probe), so the order of first use of every class / checker is the "
                  "history's own; initial objects are compared with vectors recorded alone in such a child.  "
@@ -1196,12 +1445,26 @@ def plan(ctx):
                  "%d-%d candidates that single metaschema keywords reject, %d-%d validation probes (one per "
                  "keyword), type table, default scope, served metaschema; the draft class and every derived class "
                  "re-probed after the last operation; expectation of a derived class from the reference evaluator "
-                 "on the transformed metaschema file; distinct_nontrivial = histories that derive at least one object"
+                 "on the transformed metaschema file.  "
+                 "F3: next to the four draft classes two registered dialect classes (id without fragment, id with a "
+                 "non-empty fragment); operations = create a registered class (other metaschema content) whose id "
+                 "is one of %d near-collisions of the id of {Draft4, Draft7, either dialect}: +fragment, +pointer "
+                 "fragment, empty fragment added / removed, upper-case scheme, upper-case host, empty query, query, "
+                 "path case, encoded reserved character, encoded unreserved character, trailing slash, other scheme "
+                 "(%d of the %d pairs are the same id under the reference normalisation: there the owner of the id "
+                 "is not judged, everybody else is), or use all classes; all sequences to depth %d, each in its own "
+                 "pristine child; every class (6 + newcomers) re-probed after the last operation: validator_for by "
+                 "its id, new validators for {$ref: own id} x 5 instances and for a pointer into the own "
+                 "metaschema, validate() by $schema, metaschema served for the id, %d check_schema candidates; "
+                 "newcomers recorded at creation.  "
+                 "distinct_nontrivial = histories that derive at least one object"
                  % (len(OPS), D1, len(initial_objects()) + 1, len(F1_META),
                     sum(len(keywords_used(d)) for d in DRAFTS), D2,
                     min(len(meta2(d)) for d in DRAFTS), max(len(meta2(d)) for d in DRAFTS),
-                    min(len(val2(d)) for d in DRAFTS), max(len(val2(d)) for d in DRAFTS))),
-        "bounds": {"F1_ops": len(OPS), "F1_depth": D1, "F1_units": len(f1), "F2_units": len(f2), "F2_depth": D2,
+                    min(len(val2(d)) for d in DRAFTS), max(len(val2(d)) for d in DRAFTS),
+                    len(F3_VARIANTS), same, len(F3_VARIANTS) * len(F3_TARGETS), f3_depth(ctx), len(F1_META))),
+        "bounds": {"F3_ops": len(F3_OPS), "F3_depth": f3_depth(ctx), "F3_units": len(f3),
+                   "F1_ops": len(OPS), "F1_depth": D1, "F1_units": len(f1), "F2_units": len(f2), "F2_depth": D2,
                    "F2_ops": len(f2_ops("nop")), "initial_objects": len(initial_objects()) + 1, "tier": ctx.tier},
         "assumptions": ["expected vectors of derived objects are predicted from the parent's vector by the model in "
                         "apply_op (override/add changes only that keyword's probes; extend(cls) == cls)",
@@ -1210,6 +1473,9 @@ def plan(ctx):
                         "evaluator says depend on it (mc/ref/spec.py on the metaschema file with the keyword deleted "
                         "/ made unsatisfiable); classes with a foreign type checker in F1 are recorded at creation",
                         "F2 re-probes only the draft class of the unit and the classes derived from it",
+                        "F3: two metaschema ids are the same id iff they agree after lower-casing scheme and host, "
+                        "decoding encoded unreserved characters and dropping an empty fragment / empty query; "
+                        "retrieval of documents that are not in a resolver's store is blocked by handlers",
                         "F1 histories longer than 2 share their process with the other extensions of the same "
                         "2-prefix (registries restored in between); state kept elsewhere in the process by the code "
                         "under test would show as a violation in a later history of that unit"],
@@ -1219,6 +1485,8 @@ def plan(ctx):
 def model_of(unit):
     if unit[0] == "F1":
         return MODEL
+    if unit[0] == "F3":
+        return Model3()
     return Model2(unit[1], unit[2], unit[3])
 
 
@@ -1245,6 +1513,8 @@ def run_unit(unit, ctx):
                              "detail": {"exception": "%s: %s" % (rest[1], rest[3])}})
             else:
                 results.append(rest[1])
+    elif fam == "F3":
+        results = [explore(m, [F3_OPS[unit[1]]], f3_depth(ctx), True)]
     else:
         a = (unit[3], unit[2])
         base = _baseline[("F2", unit[1])]
@@ -1296,7 +1566,8 @@ def replay(case, ctx):
     hist = tuple(tuple(op) for op in case["history"])
     if not hist:
         return {"reproduced": not G.unchanged(), "observation": None, "problem": None}
-    m = MODEL if case.get("family", "F1") == "F1" else Model2(*case["unit"])
+    fam = case.get("family", "F1")
+    m = MODEL if fam == "F1" else (Model3() if fam == "F3" else Model2(*case["unit"]))
     r = in_child(run_history, m, hist)
     if r[0] == "escaped":
         return {"reproduced": True, "observation": None, "problem": list(r[1:])}
